@@ -8,12 +8,21 @@ From G04 Require Import Access AccessCheck AccessProofs.
 Lemma gap_unspecified_literal :
   localhost_checks_unspecified = false ->
   let cfg := {| c_name := b "p"; c_timeframe := []; c_basic := None; c_deny_localhost := true;
-                c_deny := None; c_aliases := []; c_mitm := false |} in
+                c_deny := None; c_aliases := []; c_mitm := false; c_idna := fun h => h |} in
   let q := {| r_method := b "GET"; r_host := b "[::0]:80"; r_hdr := [] |} in
   must_fail cfg {| now_day := 0; now_hour := 0 |} q CLocal = true /\
   passes cfg {| now_day := 0; now_hour := 0 |} (r_host q) (r_hdr q) CLocal = true.
 Proof.
   intro H. cbv zeta. unfold passes, is_localhost. rewrite H. split; vm_compute; reflexivity.
+Qed.
+
+(* zone-qualified literal: "::1%lo" is not parsed by net.ParseIP *)
+Lemma gap_zone_literal :
+  localhost_strips_zone = false ->
+  target_is_local (fun h => h) [] (b "::1%lo") = true /\ is_localhost (fun h => h) [] (b "::1%lo") = false.
+Proof.
+  intro H. unfold is_localhost. rewrite H. split; [vm_compute; reflexivity|].
+  destruct localhost_maps_idna, localhost_checks_unspecified; vm_compute; reflexivity.
 Qed.
 
 (* F1: writeErrorResponse runs the hop-by-hop response modifier over the proxy's own 407 *)
